@@ -1,0 +1,7 @@
+//go:build !go1.22
+
+package rewriter
+
+import "go/types"
+
+func unalias(ty types.Type) types.Type { return ty }
